@@ -30,6 +30,14 @@ func genWriterResps(r *rng, faults int) []resp {
 			rs = append(rs, resp{1 << 20, 0})
 		}
 	}
+	// a writer that stalls for a while: a burst of calls that accept nothing
+	// and report no error (C06: the Decoder must not re-offer the data in a loop)
+	if faults > 0 && r.chance(25) {
+		k := r.rangeIn(3, 24)
+		at := r.rangeIn(0, len(rs))
+		burst := make([]resp, k)
+		rs = append(rs[:at:at], append(burst, rs[at:]...)...)
+	}
 	return rs
 }
 
